@@ -185,8 +185,8 @@ fn judge(s: &Spec, obs: &Obs) -> Vec<(String, String)> {
     let transfers: Vec<&Pkt> = obs.packets.iter().map(|(_, p)| p).filter(|p| matches!(p, Pkt::Transfer { .. })).collect();
     let disconnects: Vec<&Pkt> = obs.packets.iter().map(|(_, p)| p).filter(|p| matches!(p, Pkt::ConfDisconnect { .. })).collect();
     let count = |k: &str| obs.calls.iter().filter(|c| c.kind() == k).count();
-    if count("discover") != 1 {
-        bad("discovery-call-count".into(), format!("{} discovery calls", count("discover")));
+    if count("discover") == 0 {
+        bad("discovery-not-consulted".into(), "no discovery call".into());
     }
     let Some(discovered) = discovered else {
         if !transfers.is_empty() || filter_in.is_some() || select_in.is_some() {
